@@ -36,7 +36,7 @@ import (
 
 type c09Field struct {
 	Name  string            `json:"n"`
-	Kind  string            `json:"k"` // string int int8 uint16 bool *string *int []string []int8 struct *struct map iface unm
+	Kind  string            `json:"k"` // string int int8 uint16 bool *string *int []string []int8 struct *struct map iface unm multi []multi file* []file* []file file
 	Tags  map[string]string `json:"t,omitempty"`
 	Anon  bool              `json:"anon,omitempty"`
 	Unexp bool              `json:"unexp,omitempty"`
@@ -52,15 +52,19 @@ type c09Case struct {
 	Dest     string     `json:"dest"` // struct | cat:<name> | map:str | map:iface | map:strs | map:int | nonstruct
 	Fields   []c09Field `json:"fields,omitempty"`
 	InitSeed int64      `json:"init_seed"`
-	Op       string     `json:"op"` // param | query | header | bind
+	Op       string     `json:"op"` // param | query | header | bind | body (BindBody alone)
 	Method   string     `json:"method,omitempty"`
 	Params   []c09KV    `json:"params,omitempty"` // one value each
 	Query    []c09KV    `json:"query,omitempty"`
+	RawTail  string     `json:"raw_tail,omitempty"` // appended verbatim to the encoded query string (malformed pairs: `&x=%zz`, `;a=1` …)
 	Header   []c09KV    `json:"header,omitempty"`
 	CType    string     `json:"ctype,omitempty"`
 	BodyKind string     `json:"body_kind,omitempty"` // none | raw | form | multipart
 	Body     string     `json:"body,omitempty"`      // raw
 	Form     []c09KV    `json:"form,omitempty"`      // form / multipart
+	Files    []c09KV    `json:"files,omitempty"`     // multipart: field name -> file names
+	Boundary string     `json:"boundary,omitempty"`  // multipart: boundary written into the BODY (default c09boundary)
+	Truncate int        `json:"truncate,omitempty"`  // multipart: cut that many bytes off the end of the body
 	LenMode  string     `json:"len_mode,omitempty"`  // "" exact | "unknown" (-1) | "zero" (0 although a body is present)
 }
 
@@ -128,6 +132,27 @@ type c09CatMass struct {
 	}
 }
 
+// multipart file fields in every spelling bind.go knows, next to ordinary and multi-value fields
+type c09CatFiles struct {
+	Doc    *multipart.FileHeader   `form:"doc" query:"doc"`
+	Docs   []*multipart.FileHeader `form:"docs"`
+	Vals   []multipart.FileHeader  `form:"vals" param:"vals"`
+	Plain  multipart.FileHeader    // untagged: walked, nothing inside carries a tag
+	Hidden *multipart.FileHeader   // untagged: never set
+	QOnly  *multipart.FileHeader   `query:"qonly"` // tagged for another source only: files never reach it
+	Name   string                  `form:"name" query:"name"`
+	M      c08Multi                `form:"m" query:"m" param:"m" header:"m"`
+	N      c08Multi                // untagged
+	After  string                  `form:"after"`
+}
+
+// a tagged plain multipart.FileHeader: rejected as soon as the request carries any file
+type c09CatFilePlain struct {
+	Before string               `form:"before"`
+	F      multipart.FileHeader `form:"f" query:"f"`
+	After  string               `form:"after" query:"after"`
+}
+
 var c09Catalogue = map[string]reflect.Type{
 	"embedded":        reflect.TypeOf(c09CatEmbedded{}),
 	"embedded-ptr":    reflect.TypeOf(c09CatEmbeddedPtr{}),
@@ -136,9 +161,33 @@ var c09Catalogue = map[string]reflect.Type{
 	"unmarshalers":    reflect.TypeOf(c09CatUnm{}),
 	"map-field":       reflect.TypeOf(c09CatMapField{}),
 	"mass":            reflect.TypeOf(c09CatMass{}),
+	"files":           reflect.TypeOf(c09CatFiles{}),
+	"file-plain":      reflect.TypeOf(c09CatFilePlain{}),
 }
 
-var c09CatNames = []string{"embedded", "embedded-ptr", "embedded-tagged", "unexported", "unmarshalers", "map-field", "mass"}
+var c09CatNames = []string{"embedded", "embedded-ptr", "embedded-tagged", "unexported", "unmarshalers", "map-field", "mass", "files", "file-plain"}
+
+var (
+	c09FilePtrT      = reflect.TypeOf((*multipart.FileHeader)(nil))
+	c09FilePtrSliceT = reflect.TypeOf([]*multipart.FileHeader(nil))
+	c09FileSliceT    = reflect.TypeOf([]multipart.FileHeader(nil))
+	c09FilePlainT    = reflect.TypeOf(multipart.FileHeader{})
+)
+
+// c09FileKind: index of the model's FileKind, or -1
+func c09FileKind(t reflect.Type) int {
+	switch t {
+	case c09FilePtrT:
+		return 0
+	case c09FilePtrSliceT:
+		return 1
+	case c09FileSliceT:
+		return 2
+	case c09FilePlainT:
+		return 3
+	}
+	return -1
+}
 
 // ---------- building Go types from specs ----------
 
@@ -147,6 +196,8 @@ var c09KindTypes = map[string]reflect.Type{
 	"bool": reflect.TypeOf(false), "*string": reflect.TypeOf((*string)(nil)), "*int": reflect.TypeOf((*int)(nil)),
 	"[]string": reflect.TypeOf([]string(nil)), "[]int8": reflect.TypeOf([]int8(nil)),
 	"map": reflect.TypeOf(map[string]string(nil)), "iface": reflect.TypeOf((*interface{})(nil)).Elem(), "unm": c08UnmT,
+	"multi": c08MultiT, "[]multi": reflect.SliceOf(c08MultiT),
+	"file*": c09FilePtrT, "[]file*": c09FilePtrSliceT, "[]file": c09FileSliceT, "file": c09FilePlainT,
 }
 
 func c09TagString(t map[string]string) reflect.StructTag {
@@ -249,6 +300,10 @@ func c09ShapeWire(t reflect.Type) string {
 	switch {
 	case c09IsUnm(t):
 		return "4"
+	case t == c08MultiT:
+		return "7"
+	case c09FileKind(t) >= 0:
+		return "8 " + wInt(c09FileKind(t))
 	case t.Kind() == reflect.Struct:
 		return "5 " + c09FieldsWire(t)
 	case t.Kind() == reflect.Ptr && t.Elem().Kind() == reflect.Struct && !c09IsUnm(t.Elem()):
@@ -277,6 +332,9 @@ func c09FieldsWire(t reflect.Type) string {
 
 func c09LeafInfo(t reflect.Type) c08FieldInfo {
 	info := c08FieldInfo{}
+	if t == c08MultiT { // all values of the key, each accepted unless it starts with `!`
+		return c08FieldInfo{Wrap: 2, E: t, Fam: famUnm}
+	}
 	switch {
 	case t.Kind() == reflect.Ptr:
 		info.Wrap, t = 1, t.Elem()
@@ -300,6 +358,9 @@ func c09ValWire(v reflect.Value) string {
 			s = v.Field(0).String()
 		}
 		return "0 0 " + c08SVal(famUnm, s)
+	case t == c08MultiT || c09FileKind(t) >= 0:
+		w, _, _ := c09SpecialRO(v)
+		return "0 " + w
 	case t.Kind() == reflect.Struct:
 		return "1 " + c09ValsWire(v)
 	case t.Kind() == reflect.Ptr && t.Elem().Kind() == reflect.Struct && !c09IsUnm(t.Elem()):
@@ -312,6 +373,50 @@ func c09ValWire(v reflect.Value) string {
 		return "0 " + w
 	}
 	return "3"
+}
+
+// multi-value unmarshaler and multipart file fields: FVal wire, canonical values, state
+func c09SpecialRO(v reflect.Value) (wire string, vals []string, state string) {
+	name := func(fh reflect.Value) string { // fh: multipart.FileHeader
+		return fh.FieldByName("Filename").String()
+	}
+	many := func() (string, []string, string) {
+		return "2 " + c08SVals(famStr, vals), vals, "many"
+	}
+	switch v.Type() {
+	case c08MultiT:
+		f := v.Field(0)
+		for i := 0; i < f.Len(); i++ {
+			vals = append(vals, f.Index(i).String())
+		}
+		return many()
+	case c09FilePlainT:
+		s := name(v)
+		return "0 " + c08SVal(famStr, s), []string{s}, "one"
+	case c09FilePtrT:
+		if v.IsNil() {
+			return "1", nil, "nil"
+		}
+		s := name(v.Elem())
+		return "0 " + c08SVal(famStr, s), []string{s}, "one"
+	case c09FileSliceT, c09FilePtrSliceT:
+		if v.IsNil() {
+			return "1", nil, "nil"
+		}
+		for i := 0; i < v.Len(); i++ {
+			e := v.Index(i)
+			if e.Kind() == reflect.Ptr {
+				if e.IsNil() {
+					vals = append(vals, "<nil>")
+					continue
+				}
+				e = e.Elem()
+			}
+			vals = append(vals, name(e))
+		}
+		return many()
+	}
+	return "3", nil, "other"
 }
 
 // like c08FVal but does not call Interface() (works on unexported fields)
@@ -422,6 +527,26 @@ func c09Fill(r *rand.Rand, v reflect.Value) {
 		v.Set(reflect.ValueOf(c08Unm{V: words[r.Intn(len(words))]}))
 	case t == c08TextT:
 		v.Set(reflect.ValueOf(c08Text{V: words[r.Intn(len(words))]}))
+	case t == c08MultiT:
+		if r.Intn(2) == 0 {
+			v.Set(reflect.ValueOf(c08Multi{V: []string{words[r.Intn(len(words))], "init"}[:1+r.Intn(2)]}))
+		}
+	case t == c09FilePlainT:
+		if r.Intn(2) == 0 {
+			v.Set(reflect.ValueOf(multipart.FileHeader{Filename: "old.txt"}))
+		}
+	case t == c09FilePtrT:
+		if r.Intn(2) == 0 {
+			v.Set(reflect.ValueOf(&multipart.FileHeader{Filename: "old.txt"}))
+		}
+	case t == c09FilePtrSliceT:
+		if r.Intn(2) == 0 {
+			v.Set(reflect.ValueOf([]*multipart.FileHeader{{Filename: "old1"}, {Filename: "old2"}}[:r.Intn(3)]))
+		}
+	case t == c09FileSliceT:
+		if r.Intn(2) == 0 {
+			v.Set(reflect.ValueOf([]multipart.FileHeader{{Filename: "old1"}, {Filename: "old2"}}[:r.Intn(3)]))
+		}
 	case t.Kind() == reflect.Struct:
 		for i := 0; i < v.NumField(); i++ {
 			c09Fill(r, v.Field(i))
@@ -500,8 +625,9 @@ func c09Leaves(v reflect.Value, path string, reach map[string]bool, out *[]c09Le
 			tags[s] = f.Tag.Get(s)
 		}
 		ft := f.Type
-		isStruct := ft.Kind() == reflect.Struct && !c09IsUnm(ft)
-		isPtrStruct := ft.Kind() == reflect.Ptr && ft.Elem().Kind() == reflect.Struct && !c09IsUnm(ft.Elem())
+		special := ft == c08MultiT || c09FileKind(ft) >= 0
+		isStruct := ft.Kind() == reflect.Struct && !c09IsUnm(ft) && !special
+		isPtrStruct := ft.Kind() == reflect.Ptr && ft.Elem().Kind() == reflect.Struct && !c09IsUnm(ft.Elem()) && !special
 		switch {
 		case isStruct || isPtrStruct:
 			inner := fv
@@ -530,6 +656,8 @@ func c09Leaves(v reflect.Value, path string, reach map[string]bool, out *[]c09Le
 				lf.Reach[s] = reach[s] && f.IsExported()
 			}
 			switch {
+			case special:
+				_, lf.Vals, lf.Kind = c09SpecialRO(fv)
 			case c09IsUnm(ft):
 				lf.Kind, lf.Vals = "one", []string{fv.Field(0).String()}
 			case (ft.Kind() == reflect.Ptr || ft.Kind() == reflect.Slice) && c09ScalarKind(ft.Elem()), c09ScalarKind(ft):
@@ -646,10 +774,9 @@ func c09KVMap(l []c09KV, single bool) map[string][]string {
 // ---------- building the request ----------
 
 func c09Request(c *c09Case) (*http.Request, string) {
-	q := url.Values(c09KVMap(c.Query, false))
 	target := "/"
-	if len(q) > 0 {
-		target += "?" + q.Encode()
+	if rq := c09RawQuery(c); rq != "" {
+		target += "?" + rq
 	}
 	method := c.Method
 	if method == "" {
@@ -665,14 +792,28 @@ func c09Request(c *c09Case) (*http.Request, string) {
 	case "multipart":
 		var buf bytes.Buffer
 		mw := multipart.NewWriter(&buf)
-		mw.SetBoundary("c09boundary")
+		bnd := c.Boundary
+		if bnd == "" {
+			bnd = "c09boundary"
+		}
+		mw.SetBoundary(bnd)
 		for _, kv := range c.Form {
 			for _, v := range kv.V {
 				mw.WriteField(kv.K, v)
 			}
 		}
+		for _, kv := range c.Files {
+			for _, name := range kv.V {
+				if w, err := mw.CreateFormFile(kv.K, name); err == nil {
+					w.Write([]byte("content of " + name))
+				}
+			}
+		}
 		mw.Close()
 		body = buf.Bytes()
+		if c.Truncate > 0 && c.Truncate < len(body) {
+			body = body[:len(body)-c.Truncate]
+		}
 	}
 	var req *http.Request
 	if body != nil {
@@ -695,6 +836,20 @@ func c09Request(c *c09Case) (*http.Request, string) {
 		req.Header[k] = v
 	}
 	return req, string(body)
+}
+
+// the query string as it is sent
+func c09RawQuery(c *c09Case) string {
+	return url.Values(c09KVMap(c.Query, false)).Encode() + c.RawTail
+}
+
+// what URL.Query() yields (malformed pairs are dropped) and whether the whole string parses
+func c09QueryOf(c *c09Case) (map[string][]string, bool) {
+	if c.RawTail == "" {
+		return c09KVMap(c.Query, false), true
+	}
+	vals, err := url.ParseQuery(c09RawQuery(c))
+	return map[string][]string(vals), err == nil
 }
 
 func c09Context(c *c09Case) echo.Context {
@@ -758,11 +913,11 @@ func c09Decoded(c *c09Case, t reflect.Type, kind string) (out string) {
 	ctx := c09Context(c)
 	d := c09NewDest(c, t)
 	bd := &echo.DefaultBinder{}
-	if bd.BindPathParams(ctx, d.Interface()) != nil {
+	if c.Op != "body" && bd.BindPathParams(ctx, d.Interface()) != nil {
 		return "0 2"
 	}
 	m := ctx.Request().Method
-	if m == http.MethodGet || m == http.MethodDelete || m == http.MethodHead {
+	if c.Op != "body" && (m == http.MethodGet || m == http.MethodDelete || m == http.MethodHead) {
 		if bd.BindQueryParams(ctx, d.Interface()) != nil {
 			return "0 2"
 		}
@@ -786,6 +941,41 @@ func c09OptData(d map[string][]string, ok bool) string {
 
 // ---------- run ----------
 
+// the multipart body as the standard library parses it (what echo's c.MultipartForm() gets)
+func c09ParseMultipart(c *c09Case) (vals, files map[string][]string, ok bool) {
+	defer func() {
+		if p := recover(); p != nil {
+			vals, files, ok = nil, nil, false
+		}
+	}()
+	req, _ := c09Request(c)
+	if err := req.ParseMultipartForm(32 << 20); err != nil || req.MultipartForm == nil {
+		return nil, nil, false
+	}
+	vals, files = map[string][]string{}, map[string][]string{}
+	for k, v := range req.MultipartForm.Value {
+		vals[k] = append([]string(nil), v...)
+	}
+	for k, fhs := range req.MultipartForm.File {
+		for _, fh := range fhs {
+			files[k] = append(files[k], fh.Filename)
+		}
+	}
+	return vals, files, true
+}
+
+// entries of a map destination, canonical
+func c09MapEntries(v reflect.Value) map[string]string {
+	out := map[string]string{}
+	if v.Kind() != reflect.Map || v.IsNil() {
+		return out
+	}
+	for _, k := range v.MapKeys() {
+		out[k.String()] = fmt.Sprint(v.MapIndex(k).Interface())
+	}
+	return out
+}
+
 func c09Run(ci any) (res Result) {
 	c := ci.(*c09Case)
 	t, err := c09DestType(c)
@@ -807,14 +997,17 @@ func c09Run(ci any) (res Result) {
 		c09Leaves(dst.Elem(), "", c09AllReach(), &before)
 	}
 	initWire := c09DValWire(c, dst.Elem())
+	initMap := c09MapEntries(dst.Elem())
 
 	params := c09ParamMap(c)
-	query := c09KVMap(c.Query, false)
+	query, queryOK := c09QueryOf(c)
 	header := c09HeaderMap(c)
 	req := ctx.Request()
 	method := req.Method
 	gdh := method == http.MethodGet || method == http.MethodDelete || method == http.MethodHead
 	hasBody := req.ContentLength != 0
+	isBind := c.Op == "bind"
+	bodyStep := c.Op == "bind" || c.Op == "body"
 
 	var berr error
 	panicked := ""
@@ -832,6 +1025,8 @@ func c09Run(ci any) (res Result) {
 			berr = bd.BindQueryParams(ctx, dst.Interface())
 		case "header":
 			berr = bd.BindHeaders(ctx, dst.Interface())
+		case "body":
+			berr = bd.BindBody(ctx, dst.Interface())
 		default:
 			berr = ctx.Bind(dst.Interface())
 		}
@@ -845,25 +1040,33 @@ func c09Run(ci any) (res Result) {
 	if code != "0" && code != "400" && code != "415" {
 		fail("binding error is neither 400 nor 415: %v", berr)
 	}
+	if berr != nil {
+		func() { // rendering the error must not panic either
+			defer func() {
+				if p := recover(); p != nil {
+					fail("Error() of the binding error panicked: %v", p)
+				}
+			}()
+			_ = berr.Error()
+		}()
+	}
 
 	// ---- model line
 	destWire := c09DestWire(c, t)
 	modelOK := true
 	var line string
-	// body answers
+	// body answers (computed with the standard library on the same request)
 	formBody, formOK := map[string][]string{}, true
-	mpBody, mpOK := map[string][]string{}, true
+	mpBody, mpFiles, mpOK := map[string][]string{}, map[string][]string{}, false
 	_, bodyStr := c09Request(c)
-	if c.Op == "bind" {
+	if bodyStep {
 		if vals, perr := url.ParseQuery(bodyStr); perr == nil {
 			formBody = vals
 		} else {
 			formOK = false
 		}
-		if c.BodyKind == "multipart" {
-			mpBody = c09KVMap(c.Form, false)
-		} else {
-			mpOK = false
+		if v, f, ok := c09ParseMultipart(c); ok {
+			mpBody, mpFiles, mpOK = v, f, true
 		}
 	}
 	switch c.Op {
@@ -877,8 +1080,12 @@ func c09Run(ci any) (res Result) {
 		line = wJoin(destWire, initWire, "0", "3", c09DataWire(header))
 		modelOK = c09ASCII(header) && !c09FoldAmbiguous(header)
 	default:
-		line = wJoin(destWire, initWire, "1", wStr(method), c09DataWire(params), c09DataWire(query), wBool(hasBody), wStr(c.CType),
-			c09Decoded(c, t, "json"), c09Decoded(c, t, "xml"), c09OptData(formBody, formOK), c09OptData(mpBody, mpOK))
+		kind := "1"
+		if c.Op == "body" {
+			kind = "2"
+		}
+		line = wJoin(destWire, initWire, kind, wStr(method), c09DataWire(params), c09DataWire(query), wBool(hasBody), wStr(c.CType),
+			c09Decoded(c, t, "json"), c09Decoded(c, t, "xml"), c09OptData(formBody, formOK), c09OptData(mpBody, mpOK), c09DataWire(mpFiles), wBool(queryOK))
 		merged := map[string][]string{}
 		for k, v := range formBody {
 			merged[k] = v
@@ -889,7 +1096,7 @@ func c09Run(ci any) (res Result) {
 		for k, v := range mpBody {
 			merged[k] = append(merged[k], v...)
 		}
-		modelOK = c09ASCII(params) && c09ASCII(merged) && !c09FoldAmbiguous(params) && !c09FoldAmbiguous(query) && !c09FoldAmbiguous(merged)
+		modelOK = c09ASCII(params) && c09ASCII(merged) && c09ASCII(mpFiles) && !c09FoldAmbiguous(params) && !c09FoldAmbiguous(query) && !c09FoldAmbiguous(merged)
 		for i := 0; i < len(c.CType); i++ {
 			if c.CType[i] >= 0x80 {
 				modelOK = false
@@ -902,6 +1109,74 @@ func c09Run(ci any) (res Result) {
 		tags = append(tags, "oracle-only")
 	}
 
+	// media type as the standard library sees it
+	mt, _, mterr := mime.ParseMediaType(c.CType)
+	if mterr != nil && errors.Is(mterr, mime.ErrInvalidMediaParameter) {
+		mterr = nil
+	}
+	decodedBody := bodyStep && hasBody && mterr == nil && (mt == "application/json" || mt == "application/xml" || mt == "text/xml")
+	formApplied := bodyStep && hasBody && mterr == nil && mt == "application/x-www-form-urlencoded"
+	mpApplied := bodyStep && hasBody && mterr == nil && mt == "multipart/form-data"
+	supported := decodedBody || formApplied || mpApplied
+	bodyRead := method == http.MethodPost || method == http.MethodPut || method == http.MethodPatch
+	// the data each source contributes, in the order they are applied
+	srcData := map[string]map[string][]string{}
+	var filesApplied, filesAny map[string][]string
+	switch c.Op {
+	case "param":
+		srcData["param"] = params
+	case "query":
+		srcData["query"] = query
+	case "header":
+		srcData["header"] = header
+	default:
+		if isBind {
+			srcData["param"] = params
+			if gdh {
+				srcData["query"] = query
+			}
+		}
+		fd := map[string][]string{}
+		if formApplied {
+			if bodyRead {
+				for k, v := range formBody {
+					fd[k] = append(fd[k], v...)
+				}
+			}
+			for k, v := range query {
+				fd[k] = append(fd[k], v...)
+			}
+		}
+		if mpApplied && mpOK {
+			for k, v := range mpBody {
+				fd[k] = append(fd[k], v...)
+			}
+			filesApplied = mpFiles
+		}
+		if hasBody {
+			// whatever echo decides about the media type, only these keys can ever reach form tags
+			all := map[string][]string{}
+			for k, v := range formBody {
+				all[k] = v
+			}
+			for k, v := range query {
+				all[k] = append(all[k], v...)
+			}
+			for k, v := range mpBody {
+				all[k] = append(all[k], v...)
+			}
+			srcData["form-any"] = all
+			filesAny = mpFiles
+		}
+		srcData["form"] = fd
+	}
+	if len(mpFiles) > 0 {
+		tags = append(tags, "multipart-files")
+	}
+	if c.Truncate > 0 || (c.Boundary != "" && c.BodyKind == "multipart") {
+		tags = append(tags, "multipart-damaged")
+	}
+
 	// ---- model-free oracle
 	nontrivial := false
 	if isStruct {
@@ -911,63 +1186,9 @@ func c09Run(ci any) (res Result) {
 		for _, l := range after {
 			afterBy[l.Path] = l
 		}
-		// media type as the standard library sees it
-		mt, _, mterr := mime.ParseMediaType(c.CType)
-		if mterr != nil && errors.Is(mterr, mime.ErrInvalidMediaParameter) {
-			mterr = nil
-		}
-		decodedBody := c.Op == "bind" && hasBody && mterr == nil && (mt == "application/json" || mt == "application/xml" || mt == "text/xml")
-		formApplied := c.Op == "bind" && hasBody && mterr == nil && mt == "application/x-www-form-urlencoded"
-		mpApplied := c.Op == "bind" && hasBody && mterr == nil && mt == "multipart/form-data"
-		supported := decodedBody || formApplied || mpApplied
-		// the data each source may contribute
-		srcData := map[string]map[string][]string{}
-		switch c.Op {
-		case "param":
-			srcData["param"] = params
-		case "query":
-			srcData["query"] = query
-		case "header":
-			srcData["header"] = header
-		default:
-			srcData["param"] = params
-			if gdh {
-				srcData["query"] = query
-			}
-			fd := map[string][]string{}
-			if formApplied {
-				if method == http.MethodPost || method == http.MethodPut || method == http.MethodPatch {
-					for k, v := range formBody {
-						fd[k] = append(fd[k], v...)
-					}
-				}
-				for k, v := range query {
-					fd[k] = append(fd[k], v...)
-				}
-			}
-			if mpApplied {
-				for k, v := range mpBody {
-					fd[k] = append(fd[k], v...)
-				}
-			}
-			if hasBody {
-				// whatever echo decides about the media type, only these keys can ever reach form tags
-				all := map[string][]string{}
-				for k, v := range formBody {
-					all[k] = v
-				}
-				for k, v := range query {
-					all[k] = append(all[k], v...)
-				}
-				for k, v := range mpBody {
-					all[k] = append(all[k], v...)
-				}
-				srcData["form-any"] = all
-			}
-			srcData["form"] = fd
-		}
 		anyMalformed := false // some reachable tagged field can only receive a malformed value
 		mayMalformed := false // … may receive one (several keys equal under folding)
+		nearMiss := false
 		for _, b := range before {
 			a, ok := afterBy[b.Path]
 			if b.Kind == "nilstruct" || b.Kind == "node" {
@@ -982,6 +1203,7 @@ func c09Run(ci any) (res Result) {
 			if decodedBody {
 				continue // encoding/json|xml follow their own rules
 			}
+			fileKind := c09FileKind(b.T)
 			// (1) may this leaf change at all?
 			mayChange := false
 			for _, s := range c09Sources {
@@ -994,7 +1216,13 @@ func c09Run(ci any) (res Result) {
 				}
 				if _, n, _ := c09Match(d, b.Tags[s]); n > 0 {
 					mayChange = true
+				} else if c09NearMissKey(d, b.Tags[s]) {
+					nearMiss = true
 				}
+			}
+			// uploaded files reach a file field only under the exact name of its form tag
+			if fileKind >= 0 && b.Tags["form"] != "" && b.Reach["form"] && len(filesAny[b.Tags["form"]]) > 0 {
+				mayChange = true
 			}
 			if !mayChange {
 				if !c09LeafEq(a, b) {
@@ -1003,10 +1231,43 @@ func c09Run(ci any) (res Result) {
 				continue
 			}
 			nontrivial = true
-			// (2) precedence / exactness for scalar and slice leaves when nothing failed
 			if b.Kind == "other" {
 				continue
 			}
+			// (2a) multipart file fields
+			if fileKind >= 0 {
+				formTag := b.Tags["form"]
+				fileSrc := len(filesApplied) > 0 && formTag != "" && b.Reach["form"]
+				fileHit := fileSrc && fileKind != 3 && len(filesApplied[formTag]) > 0
+				if fileSrc && fileKind == 3 {
+					// plain multipart.FileHeader with a form tag: echo rejects the request as soon as it
+					// carries files.  The property does not demand that; it is checked through the model only.
+					tags = append(tags, "file:plain-with-files")
+				}
+				for _, s := range c09Sources {
+					d := srcData[s]
+					if d == nil || b.Tags[s] == "" || !b.Reach[s] || (s == "form" && fileHit) {
+						continue
+					}
+					if len(c09Candidates(d, b.Tags[s])) > 0 {
+						anyMalformed, mayMalformed = true, true // a text for a file field is always an error
+						tags = append(tags, "file:text-for-file-field")
+					}
+				}
+				if berr == nil && fileHit {
+					tags = append(tags, fmt.Sprintf("file:set-kind%d", fileKind))
+					names := filesApplied[formTag]
+					wantKind := "many"
+					if fileKind == 0 {
+						names, wantKind = names[:1], "one"
+					}
+					if a.Kind != wantKind || !c08Same(a.Vals, false, names, false) {
+						fail("file field %s: the request carries files %v under %q, the field holds %v (%s)", b.Path, filesApplied[formTag], formTag, a.Vals, a.Kind)
+					}
+				}
+				continue
+			}
+			// (2b) precedence / exactness for scalar, slice and multi-value leaves when nothing failed
 			info := c09LeafInfo(b.T)
 			want, have := b.Vals, false
 			wantKind := b.Kind
@@ -1057,23 +1318,48 @@ func c09Run(ci any) (res Result) {
 					wantKind = "many"
 				}
 			}
+			if berr == nil && have && b.T == c08MultiT {
+				tags = append(tags, "multi-unmarshaler-set")
+			}
 			if berr == nil && have && !ambiguous && !mayMalformed {
 				if a.Kind != wantKind || !c08Same(a.Vals, false, want, false) {
 					fail("leaf %s: the last applied source carrying its tag gives %v, the field holds %v (%s)", b.Path, want, a.Vals, a.Kind)
 				}
 			}
 		}
+		if nearMiss {
+			tags = append(tags, "near-miss-key")
+		}
 		// (3) never silent
 		if berr == nil && anyMalformed {
 			fail("a reachable tagged field received a malformed value but Bind returned no error")
 		}
 		// (4) unsupported media type
-		if c.Op == "bind" && hasBody && !supported {
+		if bodyStep && hasBody && !supported {
 			tags = append(tags, "unsupported-media")
 			if berr == nil {
 				fail("non-empty body of unsupported type %q was accepted", c.CType)
 			} else if code != "415" && !(code == "400" && mayMalformed) && !(code == "400" && c09HasStructuralError(before, srcData)) {
 				fail("non-empty body of unsupported type %q: got %s, want 415", c.CType, code)
+			}
+		}
+		// (5) a body that its own media type cannot parse is malformed input
+		if (mpApplied && !mpOK) || (formApplied && bodyRead && !formOK) {
+			tags = append(tags, "body-unparsable")
+		}
+		if !queryOK {
+			tags = append(tags, "query-unparsable")
+			// a form / multipart step parses the URL query too (ParseForm): malformed input, 400
+			if berr == nil && (formApplied || mpApplied) {
+				fail("form step on a request whose URL query does not parse (%q) was accepted", c09RawQuery(c))
+			}
+		}
+		if berr == nil && !decodedBody {
+			if mpApplied && !mpOK {
+				fail("multipart body that mime/multipart rejects was accepted")
+			}
+			if formApplied && bodyRead && !formOK {
+				fail("urlencoded body that url.ParseQuery rejects was accepted")
 			}
 		}
 		if formApplied {
@@ -1083,39 +1369,75 @@ func c09Run(ci any) (res Result) {
 			tags = append(tags, "decoded-body")
 		}
 	} else {
-		// maps and non-struct destinations
+		// maps and non-struct destinations: entries already there survive, every applied source
+		// adds / overrides exactly the keys it carries (keys are compared exactly), in the order
+		// path, query (GET/DELETE/HEAD), form body
 		switch c.Dest {
 		case "map:str", "map:iface", "map:strs":
-			var d map[string][]string
-			switch c.Op {
-			case "param":
-				d = params
-			case "query":
-				d = query
-			case "header":
-				d = header
+			render := func(v []string) string {
+				if c.Dest == "map:strs" {
+					return fmt.Sprint(v)
+				}
+				return v[0]
 			}
-			if d != nil && berr == nil {
+			expected := map[string]string{}
+			for k, v := range initMap {
+				expected[k] = v
+			}
+			applied := 0
+			for _, s := range []string{"param", "query", "form", "header"} {
+				d := srcData[s]
+				if len(d) > 0 {
+					applied++
+				}
 				for k, v := range d {
-					e := dst.Elem().MapIndex(reflect.ValueOf(k))
-					if !e.IsValid() {
-						fail("map destination misses key %q", k)
-						continue
-					}
-					got := fmt.Sprint(e.Interface())
-					want := v[0]
-					if c.Dest == "map:strs" {
-						want = fmt.Sprint(v)
-					}
-					if got != want {
-						fail("map destination: key %q holds %s, want %s", k, got, want)
+					if len(v) > 0 {
+						expected[k] = render(v)
 					}
 				}
-				nontrivial = len(d) > 0
+			}
+			bodyBad := (mpApplied && !mpOK) || (formApplied && bodyRead && !formOK) || ((formApplied || mpApplied) && !queryOK)
+			if berr == nil && !decodedBody && !bodyBad {
+				got := c09MapEntries(dst.Elem())
+				for k, want := range expected {
+					g, ok := got[k]
+					if !ok {
+						fail("map destination misses key %q (held before or carried by an applied source)", k)
+					} else if g != want {
+						fail("map destination: key %q holds %s, want %s (last applied source carrying it)", k, g, want)
+					}
+				}
+				for k := range got {
+					if _, ok := expected[k]; !ok {
+						fail("map destination holds key %q that no applied source carries", k)
+					}
+				}
+				nontrivial = applied > 0
+				if applied > 1 {
+					tags = append(tags, "map-multi-source")
+				}
+				if applied > 0 && len(initMap) > 0 {
+					tags = append(tags, "map-prepopulated")
+				}
+			}
+			if bodyStep && hasBody && !supported && berr == nil {
+				fail("non-empty body of unsupported type %q was accepted", c.CType)
 			}
 		}
 	}
 	return Result{Ops: line, Obs: obs, Oracle: oracle, Tags: tags, Nontrivial: nontrivial}
+}
+
+// some key of d is not equal to tag under folding but contains it (tag plus an affix such as
+// `[]`, `.`, a space, a prefix)
+func c09NearMissKey(d map[string][]string, tag string) bool {
+	lt := strings.ToLower(tag)
+	for k := range d {
+		if !strings.EqualFold(k, tag) && strings.Contains(strings.ToLower(k), lt) {
+			return true
+		}
+	}
+	return false
 }
 
 // a 400 can also come from the shape itself: a tagged embedded struct (whenever the source has
@@ -1134,7 +1456,7 @@ func c09HasStructuralError(leaves []c09Leaf, srcData map[string]map[string][]str
 			if l.Kind == "node" && l.Anon && isStructKind {
 				return true
 			}
-			if l.Kind == "node" || l.Kind == "nilstruct" || l.Kind == "other" {
+			if l.Kind == "node" || l.Kind == "nilstruct" || l.Kind == "other" || c09FileKind(l.T) >= 0 {
 				if _, n, _ := c09Match(d, l.Tags[s]); n > 0 {
 					return true
 				}
